@@ -206,7 +206,16 @@ def run_case(case, part):
                 judge_path(chosen, prefix, restrict, part, replay,
                            'writer+content-disposition' if case.get('disposition') and
                            '--content-disposition' in case['options'] else 'writer')
-        # 3. nothing may have been created outside the prefix
+        # 3. nothing may have been created outside the prefix (attempts outside the scratch area are stopped and recorded by
+        #    the write guard of the worker process; attempts elsewhere inside it show up in the walk below)
+        try:
+            from compat import guard
+            blocked = guard.pop_attempts()
+        except ImportError:
+            blocked = []
+        if blocked:
+            part.violation('write-attempted-outside-scratch-area', {'paths': blocked[:4], 'url': case['url'], 'options': case['options'],
+                                                                    'disposition': case.get('disposition')}, replay)
         outside = []
         for root, dirs, files in os.walk(sandbox):
             for n in dirs + files:
